@@ -22,14 +22,21 @@ type reqRec struct {
 	host      int
 	acceptAt  int64
 	timeoutMs int
-	released  bool
-	mu        sync.Mutex
-	results   []string // codes in arrival order
-	committed int
-	value     uint64
-	data      []byte
-	doneAt    int64
+	// ticks the replica of the accepting host had processed when the request was accepted (read
+	// after the request's deadline was fixed: an upper bound of the deadline's base), 0 = unknown
+	acceptTick int64
+	overdue    bool
+	released   bool
+	mu         sync.Mutex
+	results    []string // codes in arrival order
+	committed  int
+	value      uint64
+	data       []byte
+	doneAt     int64
 }
+
+// expirySlack: ticks beyond its deadline after which a request without a terminal result is overdue.
+const expirySlack = 300
 
 // requestsMode (C12): every accepted request is followed by a watcher until
 // the shard / host has fully stopped: exactly one terminal result, at most one
@@ -38,7 +45,7 @@ type reqRec struct {
 // never applied.
 func requestsMode(r *common.Run, sk *sink) {
 	r.SetRule("each case = one 3-host cluster (PRNG: NotifyCommit, store, state machine kind) with 12 goroutines issuing Propose / ReadIndex / config change / RequestSnapshot / QueryRaftLog with timeouts of 1-4 ticks up to 1s, half of the requests released and re-issued at once (pool reuse), under leader isolation, StopShard + restart and final NodeHost.Close under load, with delays injected at the commit-notification and read-index hand-over windows; every accepted request is watched to quiescence; 4 more goroutines call SyncPropose with a context deadline tuned to the running completion latency (the ctx.Done() branch races the result) and require that a completed call carries the id of its own payload; non-trivial = expirations raced with applies, pooled objects were reused, and a stop/close happened with requests in flight; distinct by hash of the per-kind outcome histogram")
-	r.Assume("'never zero results' is decided at quiescence (after StopShard / NodeHost.Close returned), not by wall clock; lateness of Timeout results is only recorded")
+	r.Assume("'never zero results' is decided at quiescence (after StopShard / NodeHost.Close returned) and, while the shard runs, in logical time: no terminal result although the accepting replica processed timeout + 300 more ticks (NodeTick hook) is a violation; wall clocks decide nothing")
 	n := r.Pick(36, 240)
 	for _, c := range r.MyCases(n) {
 		runRequests(r, sk, c, r.Rand("requests", c), r.SubSeed("requests-seed", c))
@@ -88,7 +95,7 @@ func runRequests(r *common.Run, sk *sink, caseNo int, rng *rand.Rand, seed int64
 	var recMu sync.Mutex
 	var recs []*reqRec
 	var watchers sync.WaitGroup
-	var stopFlag int32
+	var stopFlag, pauseFlag int32
 	addRec := func(rec *reqRec) {
 		recMu.Lock()
 		recs = append(recs, rec)
@@ -194,6 +201,9 @@ func runRequests(r *common.Run, sk *sink, caseNo int, rng *rand.Rand, seed int64
 			return
 		}
 		rec.acceptAt = c.Clock.Now()
+		if rec.kind != "querylog" {
+			rec.acceptTick = c.Ticks(shardID, uint64(h.Index+1))
+		}
 		addRec(rec)
 		watchers.Add(1)
 		go watch(rs, rec, release)
@@ -230,6 +240,10 @@ func runRequests(r *common.Run, sk *sink, caseNo int, rng *rand.Rand, seed int64
 			defer wg.Done()
 			prng := rand.New(rand.NewSource(seed + int64(g)*31))
 			for atomic.LoadInt32(&stopFlag) == 0 {
+				if atomic.LoadInt32(&pauseFlag) != 0 {
+					time.Sleep(5 * time.Millisecond)
+					continue
+				}
 				issue(g, prng)
 				time.Sleep(time.Duration(prng.Intn(3000)) * time.Microsecond)
 			}
@@ -337,6 +351,69 @@ func runRequests(r *common.Run, sk *sink, caseNo int, rng *rand.Rand, seed int64
 		}
 		time.Sleep(time.Duration(100+rng.Intn(150)) * time.Millisecond)
 	}
+	// expiry in logical time: a request that has no terminal result although the replica that
+	// accepted it has processed its whole timeout plus expirySlack more ticks is overdue ("by
+	// tick-driven expiry shortly after its deadline at the latest"). The slack covers the expiry
+	// granularity (a few ticks) and, generously, the lag of the watcher goroutine; in half of the
+	// cases the clients pause here until every replica has ticked long enough for the requests
+	// issued so far to be judged.
+	sweep := func() {
+		recMu.Lock()
+		cur := append([]*reqRec(nil), recs...)
+		recMu.Unlock()
+		now := map[int]int64{}
+		for i := 0; i < 3; i++ {
+			now[i] = c.Ticks(shardID, uint64(i+1))
+		}
+		for _, rec := range cur {
+			if rec.acceptTick == 0 {
+				continue
+			}
+			rec.mu.Lock()
+			terminal := false
+			for _, code := range rec.results {
+				if code != "committed" {
+					terminal = true
+				}
+			}
+			due := rec.acceptTick + int64(rec.timeoutMs/10) + expirySlack
+			if !terminal && !rec.overdue && now[rec.host] >= due {
+				rec.overdue = true
+				sk.Violation("C12", "no-result-long-after-the-deadline:"+rec.kind,
+					fmt.Sprintf("%s request accepted on host %d with a timeout of %d ticks when its replica had processed %d ticks still has no terminal result after %d ticks (the shard was not stopped)", rec.kind, rec.host, rec.timeoutMs/10, rec.acceptTick, now[rec.host]),
+					map[string]interface{}{"case": caseNo, "kind": rec.kind, "host": rec.host, "timeout_ms": rec.timeoutMs, "accept_tick": rec.acceptTick, "ticks_now": now[rec.host], "results": append([]string(nil), rec.results...)})
+			}
+			if terminal || rec.overdue {
+				rec.acceptTick = 0 // judged
+				sk.Count("requests_judged_for_expiry_in_ticks", 1)
+			}
+			rec.mu.Unlock()
+		}
+	}
+	if rng.Intn(2) == 0 {
+		atomic.StoreInt32(&pauseFlag, 1)
+		base := map[int]int64{}
+		for i := 0; i < 3; i++ {
+			base[i] = c.Ticks(shardID, uint64(i+1))
+		}
+		reached := waitFor(8*time.Second, func() bool {
+			for i := 0; i < 3; i++ {
+				if c.Hosts[i].NodeHost() != nil && c.Ticks(shardID, uint64(i+1)) < base[i]+100+expirySlack+5 {
+					return false
+				}
+			}
+			return true
+		})
+		if reached {
+			sweep()
+			sk.Count("cases_with_expiry_drain", 1)
+		} else {
+			sk.Count("expiry_drain_watchdog", 1)
+		}
+		atomic.StoreInt32(&pauseFlag, 0)
+		time.Sleep(time.Duration(150+rng.Intn(200)) * time.Millisecond)
+	}
+	sweep()
 	// final close under load, then quiescence
 	c.StopAll()
 	stopsUnderLoad++
